@@ -59,7 +59,8 @@ func (n *N) render(typedefPrefix string) string {
 	for _, p := range n.Props {
 		// GFEAT: a feature of the module that defines the grouping (prefixed like its typedef when
 		// the text is written in another module)
-		b.WriteString(" " + strings.ReplaceAll(p, "GFEAT", typedefPrefix+"gfeat"))
+		// GOFF: the defining module's feature "off" - the using module has a feature of the same name
+		b.WriteString(" " + strings.ReplaceAll(strings.ReplaceAll(p, "GFEAT", typedefPrefix+"gfeat"), "GOFF", typedefPrefix+"off"))
 	}
 	for _, k := range n.Kids {
 		b.WriteString(" " + k.render(typedefPrefix))
@@ -103,10 +104,13 @@ func bodyMenu() map[string][]*N {
 		"must":      {{Kind: "container", Name: "c", Props: []string{`must "l = 'x'" { error-message "em"; }`}, Kids: []*N{lf("l", "string")}}},
 		// if-feature written inside the grouping: it names a feature of the defining module
 		"iffeature": {{Kind: "container", Name: "c", Kids: []*N{lf("l", "string", "if-feature GFEAT;"), lf("m", "int8")}}, lf("top", "string", "if-feature GFEAT;")},
+		// ... and one that names the defining module's feature "off" (enabled for an imported grouping)
+		// while the using module's feature "off" is disabled: equal text, different features
+		"iffeature-same": {{Kind: "container", Name: "c", Kids: []*N{lf("l", "string", "if-feature GOFF;"), lf("m", "int8")}}, lf("top", "string", "if-feature GOFF;")},
 	}
 }
 
-var bodyNames = []string{"leaf", "leaf-def", "container", "list", "choice", "leaf-list", "typedef", "must", "iffeature"}
+var bodyNames = []string{"leaf", "leaf-def", "container", "list", "choice", "leaf-list", "typedef", "must", "iffeature", "iffeature-same"}
 
 // Mod is one modification of the uses.
 type Mod struct {
@@ -191,7 +195,7 @@ func modTarget(m string, body []*N) (target, stmt string, ok bool) {
 }
 
 func build(s Structure) (r rendered, applicable bool) {
-	if s.Def == "submodule" && strings.Contains(" "+strings.Join(s.Body, " ")+" ", " iffeature ") {
+	if s.Def == "submodule" && strings.Contains(" "+strings.Join(s.Body, " ")+" ", " iffeature") {
 		// the in-place variant would name a feature of the submodule from the module, which this
 		// compiler does not resolve (see C14): no in-place equivalent to compare with
 		return r, false
@@ -457,8 +461,8 @@ func build(s Structure) (r rendered, applicable bool) {
 	}
 	switch s.Def {
 	case "import":
-		b := "module b { namespace \"urn:b\"; prefix b; feature gfeat;" + gdef.String() + " }"
-		bInl := "module b { namespace \"urn:b\"; prefix b; feature gfeat;"
+		b := "module b { namespace \"urn:b\"; prefix b; feature gfeat; feature off;" + gdef.String() + " }"
+		bInl := "module b { namespace \"urn:b\"; prefix b; feature gfeat; feature off;"
 		if needsTypedef {
 			bInl += " typedef t { type int8 { range \"1..5\"; } }"
 		}
@@ -499,7 +503,7 @@ type rec struct {
 // module changes the outcome.
 func featuresFor(s Structure) []string {
 	if s.Def == "import" {
-		return []string{"a:feat", "b:gfeat"}
+		return []string{"a:feat", "b:gfeat", "b:off"}
 	}
 	return []string{"a:feat", "a:gfeat"}
 }
@@ -775,7 +779,7 @@ func checkPair(p pairRec) (vs []engine.Violation, outcome string) {
 	mk := func(key, detail string) {
 		vs = append(vs, engine.Violation{Key: key, Witness: p.S1.String() + "  ||  " + p.S2.String(), Detail: detail + "\n--- uses variant: " + fmt.Sprint(uses) + "\n--- inline variant: " + fmt.Sprint(inl), Harness: "pair", Replay: engine.JSON(p)})
 	}
-	opts := gen.Options{Features: []string{"a:feat", "a2:feat", "b:gfeat"}}
+	opts := gen.Options{Features: []string{"a:feat", "a2:feat", "b:gfeat", "b:off"}}
 	ru, ri := gen.Compile(uses, opts), gen.Compile(inl, opts)
 	cls := fmt.Sprintf("mods=%v+%v", p.S1.Mods, p.S2.Mods)
 	switch {
